@@ -23,7 +23,7 @@ RULE = ("families {daily current/legacy, billing, hourly} x baseline datasets (n
 ASSUMPTIONS = ["when several refusal reasons hold at once (e.g. disqualified and foreign timezone) any raised exception counts as refusal",
                "a model 'carries a disqualification' when model.disqualification is non-empty"]
 REQUIRED_REACH = {"event.fit": 24, "event.predict": 200, "gate.fit_refused": 6, "gate.fit_overridden": 6, "gate.predict_refused_dq": 10,
-                  "gate.predict_overridden": 10, "gate.predict_refused_foreign": 40, "gate.stored_model_events": 60, "gate.poor_fit_model": 2,
+                  "gate.predict_overridden": 10, "gate.predict_refused_foreign": 40, "gate.stored_model_events": 60, "gate.poor_fit_model": 2, "gate.poor_fit_rule_judged": 3, "gate.poor_fit_with_an_undefined_metric": 1,
                   "gate.unfitted": 6, "stored.disqualification_kind:missing_monthly_temperature_data": 1, "stored.disqualification_kind:incorrect_number_of_total_days": 1}
 
 VIOL = []
@@ -67,6 +67,10 @@ def defect_frame(fam, rng, tz, defect):
     if defect == "temp_run":
         a = int(rng.integers(40, 200)) * per
         df.iloc[a:a + 45 * per, tmp] = np.nan
+    if defect == "poor_fit_undefined_metric":
+        # net-metered, spiky: mean usage 0 (CVRMSE undefined) and heavy tails (RMSE many times the inter-quartile range)
+        v = rng.standard_t(1.5, len(df))
+        df["observed"] = v - float(v.mean())
     if defect == "poor_fit":
         col = df["observed"]
         vals = np.exp(rng.normal(0.0, 1.5, len(df)))
@@ -137,6 +141,25 @@ def run_case(spec):
     model_dq = names(m.disqualification)
     if any("model_fit" in w.qualified_name for w in m.disqualification):
         I.reach("gate.poor_fit_model")
+    # "added for poor fit": the model carries the poor-fit disqualification exactly when its own reported fit statistics miss the thresholds
+    if defect.startswith("poor_fit"):
+        has = any("model_fit" in w.qualified_name for w in m.disqualification)
+        if fam.kind == "hourly":
+            cv, pn = m.baseline_metrics.cvrmse_adj, m.baseline_metrics.pnrmse_adj
+            ok_fit = bool((cv is not None and cv < m.settings.cvrmse_threshold) or (pn is not None and pn < m.settings.pnrmse_threshold))
+            desc = "cvrmse_adj=%r (threshold %r), pnrmse_adj=%r (threshold %r)" % (cv, m.settings.cvrmse_threshold, pn, m.settings.pnrmse_threshold)
+            if cv is None or pn is None:
+                I.reach("gate.poor_fit_with_an_undefined_metric")
+        elif fam.kind in ("daily", "billing"):
+            ok_fit = bool(not (m.error["CVRMSE"] > m.settings.cvrmse_threshold))
+            desc = "CVRMSE=%r (threshold %r)" % (m.error["CVRMSE"], m.settings.cvrmse_threshold)
+        else:
+            ok_fit = None
+        if ok_fit is not None:
+            I.reach("gate.poor_fit_rule_judged")
+            if has == ok_fit:
+                add("poor-fit-disqualification-%s:%s" % ("spurious" if ok_fit else "missing", fam.kind), "model %s a poor-fit disqualification although %s" % (
+                    "carries" if has else "does not carry", desc), **tag)
     # ---- predict gate ---------------------------------------------------------------------------------------------
     other_fam = FT.Family({"daily": "hourly:default", "billing": "daily:current", "hourly": "daily:current"}[fam.kind])
     other_tz = "Australia/Sydney" if tz != "Australia/Sydney" else "Europe/London"
@@ -204,10 +227,10 @@ def gen_cases(tier, seed):
     k = 0
     combos = [(f, d) for d in defects for f in fams]
     if q:
-        combos = [(f, d) for (f, d) in combos if d in ("none", "too_short", "poor_fit")] + [("daily:current", "day_gaps"), ("hourly:default", "month_gap"),
+        combos = [(f, d) for (f, d) in combos if d in ("none", "too_short", "poor_fit")] + [("hourly:default", "poor_fit_undefined_metric"), ("daily:current", "day_gaps"), ("hourly:default", "month_gap"),
                                                                                           ("daily:current", "month_gap"), ("billing", "month_gap"), ("daily:legacy", "temp_run")]
     else:
-        combos = combos * 3
+        combos = combos * 3 + [("hourly:default", "poor_fit_undefined_metric"), ("hourly:robust", "poor_fit_undefined_metric"), ("hourly:default:ghi", "poor_fit_undefined_metric")]
         # developer / custom profiles too (thorough): the gate must not depend on the profile
         combos += [(f, d) for d in ("none", "too_short", "poor_fit", "combination") for f in ("daily:legacy-dev-splits", "daily:dev-c_hdd", "daily:custom-maps", "daily:dev-nofinal", "hourly:robust", "hourly:noedge")]
     for f, d in combos:
